@@ -67,7 +67,10 @@ def plan(tier):
 
 
 # keys are file names: "k1.tmp" / "k1~" style siblings are ordinary, distinct keys
-KEYS = ["k1", "k2", "dir/k3", "dir/sub/k4", "other/k5", "k1.tmp", "dir/k3.tmp", "k2.bak"]
+# incl. keys that differ only in their Unicode spelling (composed / decomposed e-acute, K / KELVIN SIGN) or in case:
+# distinct strings are distinct keys
+KEYS = ["k1", "k2", "dir/k3", "dir/sub/k4", "other/k5", "k1.tmp", "dir/k3.tmp", "k2.bak",
+        "café", "café", "K9", "K9", "k9"]
 ROOT = "/kv"
 
 
@@ -251,6 +254,18 @@ def _run_simfs(ch, cfg, hist, nextra):
                 pass
             stats["probe_concurrent_get"] += 1
 
+    # optionally somebody else opens a store object on the same directory at an arbitrary moment (opening is not a
+    # write: whatever a constructor does must leave sets in flight and completed values alone)
+    if ch.draw(3, "opener") == 0:
+        odelay = ch.draw(30, "opener.delay")
+
+        def opener():
+            for _ in range(odelay):
+                w.yield_point("opener.wait")
+            st = kvs.KeyValueStorage(ROOT)
+            sim_cache(st.cache, w)
+            stats["probe_store_opened_at_an_arbitrary_moment"] += 1
+        w.spawn("opener", opener)
     a = w.spawn("writer", writer)
     if reader_keys:
         w.spawn("reader", reader)
@@ -454,6 +469,7 @@ def _run_child(root, hist, vals, kill_at, progress_path):
     fc.open = _real_open(ctl)
     fc.os = _RealOS(ctl)
     fc.time = _t
+    kvs.os, kvs.open = os, open          # (a simulated disk of an earlier run in this worker must not linger here)
     store = kvs.KeyValueStorage(root)
     fd = os.open(progress_path, os.O_WRONLY | os.O_CREAT | os.O_APPEND)
     for i, ((k, lit), v) in enumerate(zip(hist, vals)):
@@ -518,6 +534,7 @@ def scenario_real(ch, cfg):
             fc.open = open
             fc.os = os
             fc.time = _t
+            kvs.os, kvs.open = os, open
             st2 = kvs.KeyValueStorage(root)
             try:
                 for key, idx in returned.items():
